@@ -83,7 +83,7 @@ def _is_config_true(test):
 
 
 class Index(object):
-    def __init__(self, repo="/repo"):
+    def __init__(self, repo="/repo", normalise=True):
         self.repo = repo
         self.modules = {}
         self.classes = []
@@ -93,6 +93,14 @@ class Index(object):
         self._bind()
         self._link_classes()
         self._check_config()
+        self.inlined_helpers = []
+        for fi in self.funcs:
+            fi.node_orig = fi.node
+            fi.absorbed = False
+        if normalise:
+            from .normalize import normalise as _n
+
+            _n(self)
 
     # ------------------------------------------------------------------ loading
     def _load(self):
